@@ -381,10 +381,10 @@ def _report(ctx, rule, results, oks):
     if any(k[1] == "uninterpretable" for k in first):
         raise AnalysisError(f"{rule}: " + [m for k, m in first.items() if k[1] == "uninterpretable"][0])
     for (q, key), msg in sorted(first.items()):
-        r.violation(rule, q, key, msg, repo.fn(q))
+        r.violation(rule, q, key, msg, repo.where(q))
     if not first:
         for q, what in oks:
-            r.ok(rule, q, what, repo.fn(q), f"{n} interpreted evaluations")
+            r.ok(rule, q, what, repo.where(q), f"{n} interpreted evaluations")
 
 
 def rk_hierarchies(ctx):
